@@ -3,7 +3,7 @@
                                         E = b | u<w> | i<w> | f<w> | c<tid>
      run <quirk 0|1> <tid> OP ...       OP = (set i X) | (ufb X) | (ctor X ...)
         -> per op  "<outcome> <state>" joined by " ; ", then " | RT <same|differ|raises <exc>|tbfail> | WF <shape 0|1> <strict 0|1>"
-     quirk -> 1|0                        arrelem_quirk_gen of Generated/Gen_PyObj.v
+     quirk -> 1|0                        arrelem_quirk_gen of Generated/Gen_PyObj.v;   precheck -> 1|0   t_arr_precheck tmpl_gen
      round <w> <hex>  -> hex            f_round;   ofz <int> -> hex|none;   trunc <hex> -> int;   pw <int> -> int|none
    X = (v V) | (l X ...) | (d (k X) ...) | (nd DT X ...) | (new tid X ...)
    V = N | T | F | i<dec> | f<hex> | s<cp.cp...> | y<b.b...> | (l V ...) | (d (k V) ...) | (a DT V ...)     ("s_" / "y_" = empty)
@@ -158,6 +158,7 @@ let handle (line : string) : string =
   | [A "ofz"; A z] -> (match m_of_z (z_of_string z) with Some x -> string_of_n_base 16 x | None -> "none")
   | [A "trunc"; A h] -> string_of_z (m_trunc (n_of_hex h))
   | [A "quirk"] -> if m_quirk then "1" else "0"
+  | [A "precheck"] -> if m_precheck then "1" else "0"
   | [A "pw"; A w] -> (match pick_width_gen (z_of_string w) with Some o -> string_of_z o | None -> "none")
   | _ -> failwith "request"
 
